@@ -298,6 +298,16 @@ def run_c20(prop, cfg, tier, seed):
     for d in res.get("diffs", [])[:10]:
         viol.append(("artifacts/stale", {"why": "checked-in generated file is not what its source regenerates: %s %s" % (d["file"], d["what"]), "file_in_repo": d["file"],
                                          "replay_cmd": "cp -r /repo /tmp/x && cd /tmp/x && make clean all && git diff --stat"}, True))
+    # both GENERATED front-ends of the bootstrap chain through the runtime model: the tables the working tree's pigeon generates
+    # for grammar/bootstrap.peg resp. grammar/pigeon.peg predict verdict and diagnostic of bootstrap-pigeon -x resp. pigeon -x
+    # (a stale or hand-edited bootstrap_pigeon.go / pigeon.go shows as a wrong diagnostic even where the artifacts compare equal
+    # only because both were regenerated by a wrong tool)
+    from . import front_model
+    cov = {"artifact_files_compared": nfiles, "artifact_diffs": len(res.get("diffs", [])), "exhaustive": True}
+    for front in ("bootstrap", "pigeon"):
+        fviol, fcov = front_model.run(prop, tier, seed, 200, 5000, front=front)
+        viol += fviol
+        cov.update(fcov)
     return generic(prop, cfg, tier, seed,
                    [("pvboot", 1500, 40000, ["-repo", core.REPO], {"boote000": "F3"})],
-                   extra_viol=viol, extra_cov={"artifact_files_compared": nfiles, "artifact_diffs": len(res.get("diffs", [])), "exhaustive": True})
+                   extra_viol=viol, extra_cov=cov)
